@@ -141,6 +141,7 @@ def register_access(reg):
               "C13.read-only": "heap_unchanged()"})
     C("core:BaseField.__getval__", virtual=True, params={"cfg": "ref:Config"}, returns="any", modifies=["fresh", "ncalls"],
       ensures={"C16.stored-value": "implies(not typeis(self, 'ref:VirtualFieldMixin'), has(cfg._data, self._key) and result == get(cfg._data, self._key))",
+               "C10+C16.virtual-value-is-the-getter-result": "implies(typeis(self, 'ref:VirtualField'), result == virt_value(self, cfg))",
                "C13.read-only": "heap_unchanged()"},
       raises={"C16.missing": "not typeis(self, 'ref:VirtualFieldMixin') and exc_is(KeyError) and not has(cfg._data, self._key) or typeis(self, 'ref:VirtualFieldMixin')",
               "C13.read-only": "heap_unchanged()"})
@@ -186,9 +187,9 @@ def register_io(reg):
       ensures={
           "C03+C19.only-key-files-touched": KF0, "C02.new-tree": "fresh(result)",
           "C02.keys-are-exactly-the-stored-fields": 'forall("k:key", "iff(has(result, k), has(loc_fields, k) and True and (has(self._data, k) or (truthy(virtual) and typeis(get(loc_fields, k), \'ref:VirtualFieldMixin\'))) and not typeis(get(loc_fields, k), \'ref:InstanceMethodFieldMixin\'))")',
-          "C02+C10.nested-configuration-rendered-with-the-same-mask": 'forall("k:key", "implies(has(result, k) and not typeis(get(loc_fields, k), \'ref:VirtualFieldMixin\') and has(self._data, k) and typeis(fval(get(loc_fields, k), self, k), \'ref:Config\'), tree_rel(get(result, k), fval(get(loc_fields, k), self, k), virtual, sensitive_mask))")',
-          "C10.sensitive-value-replaced-by-mask": 'forall("k:key", "implies(has(result, k) and not typeis(get(loc_fields, k), \'ref:VirtualFieldMixin\') and has(self._data, k) and not typeis(fval(get(loc_fields, k), self, k), \'ref:Config\') and typeis(get(loc_fields, k), \'ref:Field\') and get(loc_fields, k).sensitive and sensitive_mask is not None, get(result, k) == ite(not truthy(fval(get(loc_fields, k), self, k)), None, ite(len(sensitive_mask) == 1, sensitive_mask * len(str(fval(get(loc_fields, k), self, k))), sensitive_mask)))")',
-          "C10.without-mask-field-encoding-unaltered": 'forall("k:key", "implies(has(result, k) and not typeis(get(loc_fields, k), \'ref:VirtualFieldMixin\') and has(self._data, k) and not typeis(fval(get(loc_fields, k), self, k), \'ref:Config\') and typeis(get(loc_fields, k), \'ref:Field\') and not (typeis(get(loc_fields, k), \'ref:Field\') and get(loc_fields, k).sensitive and sensitive_mask is not None) and sensitive_mask is None, basic_rel(get(loc_fields, k), self, fval(get(loc_fields, k), self, k), get(result, k)))")',
+          "C02+C10.nested-configuration-rendered-with-the-same-mask": 'forall("k:key", "implies(has(result, k) and typeis(fval(get(loc_fields, k), self, k), \'ref:Config\'), tree_rel(get(result, k), fval(get(loc_fields, k), self, k), virtual, sensitive_mask))")',
+          "C10.sensitive-value-replaced-by-mask": 'forall("k:key", "implies(has(result, k) and not typeis(fval(get(loc_fields, k), self, k), \'ref:Config\') and typeis(get(loc_fields, k), \'ref:Field\') and get(loc_fields, k).sensitive and sensitive_mask is not None and implies(typeis(get(loc_fields, k), \'ref:VirtualFieldMixin\'), not typeis(fval(get(loc_fields, k), self, k), \'ref:object\')), get(result, k) == ite(not truthy(fval(get(loc_fields, k), self, k)), None, ite(len(sensitive_mask) == 1, sensitive_mask * len(str(fval(get(loc_fields, k), self, k))), sensitive_mask)))")',
+          "C10.without-mask-field-encoding-unaltered": 'forall("k:key", "implies(has(result, k) and not typeis(fval(get(loc_fields, k), self, k), \'ref:Config\') and typeis(get(loc_fields, k), \'ref:Field\') and not (typeis(get(loc_fields, k), \'ref:Field\') and get(loc_fields, k).sensitive and sensitive_mask is not None) and sensitive_mask is None, basic_rel(get(loc_fields, k), self, fval(get(loc_fields, k), self, k), get(result, k)))")',
           "C13.configuration-untouched": "heap_unchanged('Config._Config__keyfile', 'KeyFile._KeyFile__key', 'KeyFile._KeyFile__refcount')",
       },
       raises={"C03+C19.only-key-files-touched": KF0,
@@ -198,7 +199,7 @@ def register_io(reg):
           "fs": KF0,
           "frame": "heap_unchanged('Config._Config__keyfile', 'KeyFile._KeyFile__key', 'KeyFile._KeyFile__refcount', tree)",
           "stored-values-predate-the-call": 'forall("k:key", "old(implies(has(self._data, k), allocated(get(self._data, k))))")',
-          "keys": 'forall("k:key", "iff(has(tree, k), has(fields, k) and pos(fields, k) < I and (has(self._data, k) or (truthy(virtual) and typeis(get(fields, k), \'ref:VirtualFieldMixin\'))) and not typeis(get(fields, k), \'ref:InstanceMethodFieldMixin\'))")', "sub": 'forall("k:key", "implies(has(tree, k) and not typeis(get(fields, k), \'ref:VirtualFieldMixin\') and has(self._data, k) and typeis(fval(get(fields, k), self, k), \'ref:Config\'), tree_rel(get(tree, k), fval(get(fields, k), self, k), virtual, sensitive_mask))")', "masked": 'forall("k:key", "implies(has(tree, k) and not typeis(get(fields, k), \'ref:VirtualFieldMixin\') and has(self._data, k) and not typeis(fval(get(fields, k), self, k), \'ref:Config\') and typeis(get(fields, k), \'ref:Field\') and get(fields, k).sensitive and sensitive_mask is not None, get(tree, k) == ite(not truthy(fval(get(fields, k), self, k)), None, ite(len(sensitive_mask) == 1, sensitive_mask * len(str(fval(get(fields, k), self, k))), sensitive_mask)))")', "plain": 'forall("k:key", "implies(has(tree, k) and not typeis(get(fields, k), \'ref:VirtualFieldMixin\') and has(self._data, k) and not typeis(fval(get(fields, k), self, k), \'ref:Config\') and typeis(get(fields, k), \'ref:Field\') and not (typeis(get(fields, k), \'ref:Field\') and get(fields, k).sensitive and sensitive_mask is not None) and sensitive_mask is None, basic_rel(get(fields, k), self, fval(get(fields, k), self, k), get(tree, k)))")',
+          "keys": 'forall("k:key", "iff(has(tree, k), has(fields, k) and pos(fields, k) < I and (has(self._data, k) or (truthy(virtual) and typeis(get(fields, k), \'ref:VirtualFieldMixin\'))) and not typeis(get(fields, k), \'ref:InstanceMethodFieldMixin\'))")', "sub": 'forall("k:key", "implies(has(tree, k) and typeis(fval(get(fields, k), self, k), \'ref:Config\'), tree_rel(get(tree, k), fval(get(fields, k), self, k), virtual, sensitive_mask))")', "masked": 'forall("k:key", "implies(has(tree, k) and not typeis(fval(get(fields, k), self, k), \'ref:Config\') and typeis(get(fields, k), \'ref:Field\') and get(fields, k).sensitive and sensitive_mask is not None and implies(typeis(get(fields, k), \'ref:VirtualFieldMixin\'), not typeis(fval(get(fields, k), self, k), \'ref:object\')), get(tree, k) == ite(not truthy(fval(get(fields, k), self, k)), None, ite(len(sensitive_mask) == 1, sensitive_mask * len(str(fval(get(fields, k), self, k))), sensitive_mask)))")', "plain": 'forall("k:key", "implies(has(tree, k) and not typeis(fval(get(fields, k), self, k), \'ref:Config\') and typeis(get(fields, k), \'ref:Field\') and not (typeis(get(fields, k), \'ref:Field\') and get(fields, k).sensitive and sensitive_mask is not None) and sensitive_mask is None, basic_rel(get(fields, k), self, fval(get(fields, k), self, k), get(tree, k)))")',
       }, 1: {
           "locals": "typeis(comp_result, 'ref:list') and fresh(comp_result)",
           "fs": KF0,
